@@ -677,8 +677,24 @@ fn block_method(f: &ImplItemFn) -> Res<Value> {
         Value::Null
     };
 
-    // ----- the address
-    let addr_expr = find_let(&f.block, "address").ok_or("no `let address = …;` statement")?;
+    // ----- the address: whatever the constructor call's second argument denotes - a local (of any name) bound by a
+    // `let` in the body, possibly behind an `as T` cast, or the expression itself
+    let addr_arg = call
+        .args
+        .iter()
+        .nth(1)
+        .ok_or("constructor call has no address argument")?;
+    let mut addr_arg = peel(addr_arg);
+    while let Expr::Cast(c) = addr_arg {
+        addr_arg = peel(&c.expr);
+    }
+    let addr_expr = match addr_arg {
+        Expr::Path(p) if p.qself.is_none() && p.path.get_ident().is_some() => {
+            let local = p.path.get_ident().unwrap().to_string();
+            find_let(&f.block, &local).ok_or_else(|| format!("no `let {local} = …;` statement for the address argument"))?
+        }
+        other => other,
+    };
     let (address, repeat) = match peel(addr_expr) {
         Expr::Block(b) => {
             let count = assert_count(&b.block)?;
@@ -1357,7 +1373,14 @@ fn conversion_match<'a>(imp: &'a ItemImpl, what: &str) -> Res<&'a syn::ExprMatch
     let f = impl_fns(imp)
         .next()
         .ok_or_else(|| format!("{what}: impl has no function"))?;
-    match tail_expr(&f.block).map(peel) {
+    // the match itself, or the match wrapped once in `Ok(…)` (arms then give the bare variant and the fallback returns)
+    let mut tail = tail_expr(&f.block).map(peel);
+    if let Some(Expr::Call(c)) = tail {
+        if expr_is_ident(&c.func, "Ok") && c.args.len() == 1 {
+            tail = c.args.first().map(peel);
+        }
+    }
+    match tail {
         Some(Expr::Match(m)) => Ok(m),
         _ => Err(format!("{what}: function body is not a `match`")),
     }
